@@ -83,7 +83,7 @@ Proof.
   rewrite H23.
   assert (Hbc : body_calls_of m a = body_calls a).
   { unfold body_calls_of. unfold is_d_provided in Hm. apply andb_true_iff in Hm as [_ H2]. apply N.leb_le in H2.
-    destruct (N.eqb_spec m 24); [lia|]. destruct (N.eqb_spec m 30); [lia|]. destruct (N.eqb_spec m 34); [lia|reflexivity]. }
+    destruct (N.eqb_spec m 24); [lia|]. destruct (N.eqb_spec m 35); [lia|]. cbn [orb]. destruct (N.eqb_spec m 30); [lia|]. destruct (N.eqb_spec m 34); [lia|reflexivity]. }
   rewrite Hbc.
   (* the two loops differ only in what they do with the finished list and in the ghost level *)
   assert (G : forall cs st ar acc hl hl',
